@@ -170,5 +170,10 @@ theorem clamped_subtraction_is_the_source (d1s d2s : DecCoins) :
     Generated.SubtractDecCoinsWithRounding d1s d2s = subtractDecCoinsWithRounding d1s d2s :=
   ArithTie.subtractDecCoinsWithRounding_is_source d1s d2s
 
+
+/-- a chain restart keeps the delegator-share ledger: delegations and validator infos come back exactly -/
+theorem restart_keeps_the_ledger (w w' : World) (hok : RestartOK w) (hl : L0 w) (h : reimport w = (.ok (), w')) : L0 w' :=
+  restart_keeps_ledger w w' hok hl h
+
 end C03
 end Alliance
